@@ -7,6 +7,8 @@ dominates every entry into the lexer and the recursive functions are exactly the
 (e) VM errors end in a BASIC error state. Does not decide stack-depth sufficiency or the UI
 protocol as a whole."""
 from lib.mir import loc
+import re
+
 from rules import common, panics, progress
 
 RECURSIVE_OK = {
@@ -170,6 +172,34 @@ def rule_d(ctx, cr):
                   RECURSIVE_OK.get(p, ""), "recursive function not in the reviewed set: its "
                   "depth is not known to be bounded by the line length")
     ctx.floor("C03.d", "recursive functions", len(rec), 8)
+    # the expression cycle is depth-guarded: line length alone allows ~1000 nested levels, which
+    # overflows a 2 MB thread stack in a debug build
+    d = cr.need_fn("lang::ast::Expression::expect::descend")
+    ctx.touch(d)
+    inc = [b for b, st, v in d.field_stores("depth")
+           if re.search(r"\.depth Add(WithOverflow)? const:1\)", d.describe_value(v) or "")]
+    guard = None
+    for b, code, _sp in d.error_codes():
+        for op, l, r, truth in d.cmp_conds_at(b):
+            c = d.const_of_operand(r)
+            if op == "Gt" and truth and d.describe(l).endswith(".depth") and isinstance(c, int):
+                guard = c
+    rc = [c for c in d.calls() if c.name == d.path or c.name.endswith("expect_fn_expression_list")]
+    ok = bool(inc) and guard is not None and guard <= 256 and bool(rc) and \
+        all(any(d.dominates(b, c.bb) for b in inc) for c in rc)
+    ctx.check(ok, "C03.d", "recursion/expression-depth-guard", d.span,
+              "descend() counts its nesting and fails with a BASIC error above %s levels; the "
+              "count is taken before every recursive call" % guard,
+              "the expression parser's recursion is bounded only by the line length (about 1000 "
+              "levels of `(` or unary minus): parser, code generator and drop recurse that deep "
+              "and overflow a small (2 MB) native stack - the process aborts instead of "
+              "reporting an error")
+    for p in ("lang::parse::BasicParser<'a>::expect_fn_expression",
+              "lang::parse::BasicParser<'a>::expect_fn_expression_list",
+              "lang::ast::Expression::expect"):
+        ctx.check(d.path in cr.reachable_from([p]) and p in cr.reachable_from([d.path]), "C03.d",
+                  "recursion/%s/through-descend" % p.rsplit("::", 1)[1], "",
+                  "this cycle passes through the guarded descend()")
 
 
 def rule_e(ctx, cr):
